@@ -1,9 +1,10 @@
 (* ParseRR: what is FALSE for the faithful model, by concrete edit histories (all reproduced on the real library,
    scripts under /var/tmp/parserr/).  Every witness is a state rr_run (rr_init v) ops that passes mrr_sizes_ok.
 
-     parse_rr_rejects_nothing_valid_refuted   a Rock Ridge name whose 2nd and 3rd bytes are 'XA' (1.10 / 1.12: the NM
-                     entry opens the System Use area, so these are bytes 6..7 of it): XARecord.parse takes the area for a
-                     Yellow Book record, open raises 'Unused fields should be 0' (repro_xa_name.py)
+     parse_rr_rejects_nothing_valid_refuted_old   (the code BEFORE commit ac63ee2, parse_rr_gen false) a Rock Ridge name
+                     whose 2nd and 3rd bytes are 'XA' (1.10 / 1.12: the NM entry opens the System Use area, so these are
+                     bytes 6..7 of it): XARecord.parse took the area for a Yellow Book record, open raised 'Unused fields
+                     should be 0' (repro_xa_name.py); with the repaired probe the same image opens
      parse_rr_version_refuted                 Rock Ridge 1.10 is reopened as 1.09 (already for the EMPTY image): a record
                      added after reopen carries an RR entry the original object does not write
      parse_rr_master_dup_refuted              two records with one identifier inside a directory called RR_MOVED: open
@@ -23,11 +24,12 @@ Local Open Scope Z_scope.
 Definition prr_dt0 : list Z := [123; 11; 14; 22; 13; 20; 0].
 
 (* open(write(s)) on the model: the graph, or the answer of the parser *)
-Definition prr_reopen (s : rstate) : presult rgraph :=
+Definition prr_reopen_gen (xafix : bool) (s : rstate) : presult rgraph :=
   match master_rr prr_dt0 s with
-  | Some img => parse_rr (prr_fuel s) img (mrr_root_extent s) (mrr_root_len s)
+  | Some img => parse_rr_gen xafix (prr_fuel s) img (mrr_root_extent s) (mrr_root_len s)
   | None => PFuel
   end.
+Definition prr_reopen := prr_reopen_gen true.
 Definition prr_reopen_state (s : rstate) : option rstate :=
   match prr_reopen s with
   | POk g => Some (state_of (prr_pvd s) (mrr_root_len s) g)
@@ -37,10 +39,10 @@ Definition prr_reopen_state (s : rstate) : option rstate :=
 (* ---- 1. a valid image that cannot be opened ----------------------------------------------------------------- *)
 Definition prr_w_xa : list rop := [RAddFile [] [65; 46; 59; 49] [97; 88; 65] 1].          (* /A.;1, rr_name 'aXA' *)
 
-Theorem parse_rr_rejects_nothing_valid_refuted :
+Theorem parse_rr_rejects_nothing_valid_refuted_old :
   exists v ops, let s := rr_run (rr_init v) ops in
     v <> V_unset /\ mrr_wf prr_dt0 s = true /\ mrr_sizes_ok s = true /\ prr_tree_ok s = true /\
-    prr_reopen s = PInvalid 10.
+    prr_reopen_gen false s = PInvalid 10 /\ prr_reopen s = POk (graph_of prr_dt0 s).
 Proof. exists V112, prr_w_xa. split; [discriminate|]. repeat split; vm_compute; reflexivity. Qed.
 
 (* ---- 2. the version is not always recoverable ------------------------------------------------------------------ *)
@@ -111,7 +113,7 @@ Proof.
   eexists. split; [vm_compute; reflexivity|]. repeat split; vm_compute; reflexivity.
 Qed.
 
-Print Assumptions parse_rr_rejects_nothing_valid_refuted.
+Print Assumptions parse_rr_rejects_nothing_valid_refuted_old.
 Print Assumptions parse_rr_version_refuted.
 Print Assumptions parse_rr_master_dup_refuted.
 Print Assumptions prr_reopen_step_refuted.
